@@ -462,6 +462,21 @@ func checkC02(c *km.Ctx) {
 		checkAuthBits(c, s, ca, "R-C02-5")
 	}
 	_ = strings.Contains
+
+	// "... and verifies under the CA keys the server publishes": the key that signs is among the published keys
+	// when every installed signer is published after every successful load - C09's publication obligations,
+	// borrowed here
+	r.Rule("R-C02-6", "the certificate verifies under the published CA keys: every installed signer's public key is published after every successful load (C09's publication obligations)", 2)
+	r.Remap = func(rule, fn, construct string) (string, bool) {
+		if rule == "R-C09-6" {
+			return "R-C02-6", true
+		}
+		return "", false
+	}
+	saveExplain, saveND, saveAs := r.Explain, r.NotDecided, r.Assume
+	checkC09(c)
+	r.Explain, r.NotDecided, r.Assume = saveExplain, saveND, saveAs
+	r.Remap = nil
 }
 
 // isSingletonSliceOf: v = []T{elem}
